@@ -279,6 +279,45 @@ func semaRound(r *result, rnd *rand.Rand, n uint) bool {
 		r.violate("ChanSemaphore(cap %d): workers blocked", n)
 		return false
 	}
+	// 6. a waiter whose context is cancelled returns, whatever Releases and Acquires of others happen at
+	// that very moment (it either got the slot or reports the context's error; it does not stay blocked).
+	// The slot changes hands right after the cancellation, the delay between the two is swept.
+	if n >= 1 {
+		spin := 0
+		for it := 0; it < 600; it++ {
+			s6 := syncutil.NewChanSemaphore(1)
+			_ = s6.Acquire(context.Background())
+			wctx, wcancel := context.WithCancel(context.Background())
+			started := make(chan struct{})
+			wDone := make(chan error, 1)
+			go func() { close(started); wDone <- s6.Acquire(wctx) }()
+			<-started
+			if it%4 != 0 {
+				time.Sleep(5 * time.Microsecond)
+			}
+			wcancel()
+			delay := time.Duration(it%256) * 200 * time.Nanosecond
+			for t0 := time.Now(); time.Since(t0) < delay; {
+				spin++
+			}
+			s6.Release()
+			tctx, tcancel := context.WithTimeout(context.Background(), 2*time.Millisecond)
+			mainErr := s6.Acquire(tctx)
+			tcancel()
+			select {
+			case err := <-wDone:
+				if err != nil && !errors.Is(err, context.Canceled) {
+					r.violate("ChanSemaphore: a cancelled Acquire returned %v", err)
+				}
+				_ = mainErr // whoever got the slot: both outcomes are admissible
+			case <-time.After(time.Second):
+				r.violate("ChanSemaphore(cap 1): an Acquire whose context was cancelled a second ago has not returned (the slot was released and taken by another caller right after the cancellation; iteration %d)", it)
+				return false
+			}
+		}
+		r.count("sema_cancel_storms", 600)
+		_ = spin
+	}
 	r.count("sema_rounds", 1)
 	r.count("sema_max_holders_seen", int(maxHolders.Load()))
 	return true
